@@ -88,7 +88,9 @@ def lin_cases(rep, rnd, tier):
                 solver.calcrhs(f.copy())
                 if c % 4 == 3:
                     solver.calcrhs(f0.copy())
-            solver.step(f, dtarr.copy() if local else dt)
+            # a scalar step is a scalar in any of its usual guises: Python float, numpy scalar, 0-d array, one-element array
+            dt_arg = [dt, np.float64(dt), np.array(dt), np.array([dt]), float(dt)][c % 5]
+            solver.step(f, dtarr.copy() if local else dt_arg)
             Qn = f.data[0].copy()
             sch = SCHEMES[cn]
             if sch == "implicit":
